@@ -495,12 +495,18 @@ def marker_parse_tolerant(ctx: Ctx, rid: str) -> None:
     mt = ctx.fn(GC + "._marker_target")
     g = ctx.cfg(mt)
     parses = ctx.calls(mt, prim="json.loads")
+    parses += [n for n in ctx.cfg(mt).calls() if ctx.eff.storage_op(n) == "read_json"]  # read + decode in one storage call
     if not parses:
         raise AnalysisError("_marker_target no longer parses the marker payload with json.loads")
     for p in parses:
-        esc, caught = ctx.eff.propagate(mt, {"ValueError"}, p.frames, record=False)
+        decode_errors = {"ValueError"} if ctx.eff.storage_op(p) != "read_json" else {"json.JSONDecodeError", "UnicodeDecodeError"}
+        esc, caught = ctx.eff.propagate(mt, decode_errors, p.frames, record=False)
         ok = not esc and bool(caught)
-        for h, _c in caught:
+        # (a class caught by an earlier, narrower handler never reaches the later ones: judge the first catcher of each class)
+        first_for = {}
+        for h, c_ in caught:
+            first_for.setdefault(c_, h)
+        for h in {id(v): v for v in first_for.values()}.values():
             hn = next((x for x in g.nodes if x.kind == "handler" and x.ast is h), None)
             if hn is None:
                 ok = False
